@@ -501,6 +501,10 @@ Definition fields_match (l : list (field_desc * accessor_ir)) : bool :=
 Definition nodes_match (l : list (node_desc * node_ir)) : bool :=
   forallb (fun p => nir_eqb (snd p) (gen_node (fst p))) l.
 
+(* type references: (type id the schema gives, node ids the emitted qualified Go names resolve to) *)
+Definition typerefs_match (l : list (Z * list Z)) : bool :=
+  forallb (fun p => match snd p with [] => false | _ => forallb (Z.eqb (fst p)) (snd p) end) l.
+
 (* ------------------------------------------------------------------ well-formed descriptors *)
 (* what every CodeGeneratorRequest produced by the schema compiler satisfies: uint32 offsets whose
    byte/bit position does not overflow 32 bits, typed defaults, a uint16 discriminant, and a
